@@ -269,7 +269,7 @@ fn run_clone(ctx: &mut Ctx) {
 fn run_compress(ctx: &mut Ctx) {
     let mut spec = scen::gen_compress_spec(true, false);
     spec.metadata = scen::cli_safe_metadata(&spec.metadata);
-    let max_len = if spec.comp.expensive() { spec.cfg.expected_avg().saturating_mul(16).max(64) } else { 48 * 1024 };
+    let max_len = gen::len_cap(spec.comp, &spec.cfg, 48 * 1024);
     let (sspec, data) = gen::gen_source(&spec.cfg, max_len);
     let stdin = gen::chance(1, 3);
     let force = gen::chance(1, 3);
